@@ -2,6 +2,7 @@
 package xml
 
 import (
+	"bytes"
 	"strconv"
 
 	"github.com/tdewolff/parse/v2"
@@ -68,6 +69,13 @@ type Lexer struct {
 
 	text    []byte
 	attrVal []byte
+
+	replaced []replacedByte // whitespace in attribute values that has been overwritten by a space in the input
+}
+
+type replacedByte struct {
+	offset int
+	c      byte
 }
 
 // NewLexer returns a new Lexer for a given io.Reader.
@@ -83,6 +91,18 @@ func (l *Lexer) Err() error {
 		return l.err
 	}
 	return l.r.Err()
+}
+
+// newError returns an error at the current position. Attribute values are normalized in place, the line, column and context are those of the original input.
+func (l *Lexer) newError(message string) error {
+	b := l.r.Bytes()
+	if 0 < len(l.replaced) {
+		b = parse.Copy(b)
+		for _, r := range l.replaced {
+			b[r.offset] = r.c
+		}
+	}
+	return parse.NewError(bytes.NewBuffer(b), l.r.Offset(), message)
 }
 
 // Text returns the textual representation of a token. This excludes delimiters and additional leading/trailing characters.
@@ -110,7 +130,7 @@ func (l *Lexer) Next() (TokenType, []byte) {
 		}
 		if c == 0 {
 			if l.r.Err() == nil {
-				l.err = parse.NewErrorLexer(l.r, "unexpected NULL character")
+				l.err = l.newError("unexpected NULL character")
 			}
 			return ErrorToken, nil
 		} else if c != '>' && (c != '/' && c != '?' || l.r.Peek(1) != '>') {
@@ -168,7 +188,7 @@ func (l *Lexer) Next() (TokenType, []byte) {
 				return TextToken, l.text
 			}
 			if l.r.Err() == nil {
-				l.err = parse.NewErrorLexer(l.r, "unexpected NULL character")
+				l.err = l.newError("unexpected NULL character")
 			}
 			return ErrorToken, nil
 		}
@@ -300,6 +320,7 @@ func (l *Lexer) shiftAttribute() []byte {
 				l.r.Move(1)
 				if c == '\t' || c == '\n' || c == '\r' {
 					l.r.Lexeme()[l.r.Pos()-1] = ' '
+					l.replaced = append(l.replaced, replacedByte{l.r.Offset() - 1, c})
 				}
 			}
 		} else { // attribute value unquoted state
